@@ -133,8 +133,19 @@ def run(ctx):
     cs = symcalls(prog, f, S)
     rm = [c for c in cs if c[1] == "cfb::CompoundFile::<F>::remove_stream"]
     sig = {("s:%r" % consts[k]["lit"]) for k in ("DIGITAL_SIGNATURE_STREAM_NAME", "MSI_DIGITAL_SIGNATURE_EX_STREAM_NAME") if k in consts}
-    ctx.check({c[2][1] for c in rm} == sig and len(rm) == 2, R3, "removed streams", str([c[2][1] for c in rm]),
-              "remove_digital_signature removes %s, expected exactly %s" % ([c[2][1] for c in rm], sorted(sig)), f.loc(), fn=f.name)
+    removed = set()
+    for c in rm:
+        v = c[2][1]
+        if "Iterator>::next@Some.0" in v and re.search(r"array::IntoIter<T, N>", v):
+            # one removal inside a loop over an array of names: the names are the array's elements
+            from ..lib import deep_strs
+            for cc in cs:
+                if cc[1].endswith("IntoIterator>::into_iter") or cc[1].endswith("::into_iter"):
+                    removed |= {"s:'%s'" % x for x in deep_strs(S, cc[2][0])}
+        else:
+            removed.add(v)
+    ctx.check(removed == sig and len(rm) in (1, 2), R3, "removed streams", str(sorted(removed)),
+              "remove_digital_signature removes %s, expected exactly %s" % (sorted(removed), sorted(sig)), f.loc(), fn=f.name)
     for c in rm:
         g = any(tr is True and "is_stream(" in e and c[2][1] in e for (e, tr, gg) in S.bool_facts_at(c[0]))
         ctx.check(g, R3, "removal of %s guarded by is_stream" % c[2][1], "", "remove_stream(%s) is not guarded by is_stream of the same name (a missing signature becomes an error)" % c[2][1],
